@@ -64,6 +64,13 @@ def for_shape(loop):
         return sh
     l, r = render(c.children[0]), render(c.children[1])
     op = c.j["op"]
+    # `i + c < n`  is  `i < n - c`  (written that way so that n - c cannot wrap around)
+    l0 = c.children[0].strip()
+    if l != var and l0.k == "BinaryOperator" and l0.j.get("op") == "+" and op in ("<", "<="):
+        a0, b0 = l0.children[0].strip(), l0.children[1].strip()
+        if render(a0) == var and b0.const_value() is not None and b0.const_value() > 0:
+            l, r = var, "%s - %d" % (r, b0.const_value())
+            sh.bound_offset = b0.const_value()
     if l == var:
         sh.cmp, sh.bound = op, r
     elif r == var:
@@ -194,6 +201,7 @@ def index_shape(loop):
             if len(ds) != 1 or ds[0].rhs is None:
                 continue
             sh.var, sh.step, sh.cmp, sh.bound = var, step, cmp_, bound
+            sh.bound_node = c.children[1] if bound == r else c.children[0]
             sh.start_node, sh.start = ds[0].rhs, render(ds[0].rhs)
             sh.extra = [x for x in parts if x is not c]
             sh.ok = True
